@@ -116,8 +116,17 @@ def run(ctx):
         sizes = {n: SIZE for n in names}
         sizes_with_ignored = dict(sizes)
         sizes_with_ignored[ignored] = SIZE
-        genome = bnp.Genome.from_dict(sizes_with_ignored, filter_function=ignore_underscores)
-        ignored_names = {ignored}
+        if case.get("no_filter"):
+            # a genome made without a filter: the '_' contig is an ordinary contig (the last one) and receives its entries like the others
+            genome = bnp.Genome.from_dict(sizes_with_ignored) if len(names) % 2 else bnp.Genome(sizes_with_ignored, filter_function=None)
+            names = names + [ignored]
+            sizes = dict(sizes_with_ignored)
+            case = dict(case, genome=names)
+            ignored_names = set()
+            ctx.count("genomes_without_a_filter")
+        else:
+            genome = bnp.Genome.from_dict(sizes_with_ignored, filter_function=ignore_underscores)
+            ignored_names = {ignored}
         genome0 = None
         if case.get("extra_ignored"):
             # a second way of ignoring contigs: names added afterwards; the contigs ignored by the filter must stay ignored
@@ -341,7 +350,7 @@ def run(ctx):
             continue
         n_entries = len(make_rows(groups))
         for ci, cuts in enumerate(chunkings(n_entries, gen, ctx.pick(1, 4))):
-            ctx.run_case(one, {"genome": names, "groups": groups, "cuts": list(cuts), "similarity": ci == 0, "geometry": ci < 2, "extra_ignored": extra_ignored, "long_names": (idx + ci) % 3 == 0})
+            ctx.run_case(one, {"genome": names, "groups": groups, "cuts": list(cuts), "similarity": ci == 0, "geometry": ci < 2, "extra_ignored": extra_ignored, "long_names": (idx + ci) % 3 == 0, "no_filter": (idx + 2 * ci) % 4 == 1})
     # ---- contigs that add up to more than 2**31 positions: the per-contig counts are summed over the genome ---------------------------
     def big_similarity(case):
         r = random.Random(case["seed"])
